@@ -1,29 +1,68 @@
 #!/usr/bin/env python3
-"""apply every seeded patch to /repo in turn, run the check of its property (and optionally others), revert.
-usage: tools/run_mutants.py [dir ...]   (default: seeded/_incoming/*-out/* and seeded/C*/)"""
-import glob, json, os, re, subprocess, sys
-dirs = sys.argv[1:] or sorted(glob.glob("/verif/seeded/_incoming/*-out/*/")) + sorted(glob.glob("/verif/seeded/C*/"))
-rows = []
+"""apply every seeded patch in turn to a scratch worktree of /repo (never to /repo itself), run the check of its
+property against that worktree, collect the outcome.  Workers run in parallel, each with its own worktree, build
+directory and evidence directory under /tmp, all removed at the end.
+usage: tools/run_mutants.py [-w N] [dir ...]      (default: seeded/C*/)
+output: one line per (change, property):  dir | property | exit code | first failing obligation / reason"""
+import glob, json, os, re, shutil, subprocess, sys, threading, queue
+VERIF = os.path.dirname(os.path.dirname(os.path.abspath(__file__)))
+args = sys.argv[1:]
+W = 4
+if args[:1] == ["-w"]:
+    W = int(args[1]); args = args[2:]
+dirs = args or sorted(glob.glob(VERIF + "/seeded/C*/"))
+q = queue.Queue()
 for d in dirs:
-    p = os.path.join(d, "patch.diff")
-    if not os.path.exists(p):
-        continue
-    m = re.search(r"(C\d\d)", d)
-    prop = m.group(1)
-    meta = os.path.join(d, "meta.json")
-    props = [prop]
-    if os.path.exists(meta):
-        props = json.load(open(meta)).get("check_with", props)
-    r = subprocess.run(["git", "-C", "/repo", "apply", p], capture_output=True, text=True)
-    if r.returncode != 0:
-        rows.append((d, prop, "patch does not apply", ""))
-        continue
+    if os.path.exists(os.path.join(d, "patch.diff")):
+        q.put(d)
+rows, lock = [], threading.Lock()
+
+def sh(*a, **k):
+    return subprocess.run(list(a), capture_output=True, text=True, **k)
+
+def worker(i):
+    wt, bd, ev = "/tmp/mutw%d" % i, "/tmp/mutb%d" % i, "/tmp/mute%d" % i
+    sh("git", "-C", "/repo", "worktree", "remove", "--force", wt)
+    shutil.rmtree(wt, ignore_errors=True); shutil.rmtree(bd, ignore_errors=True); shutil.rmtree(ev, ignore_errors=True)
+    r = sh("git", "-C", "/repo", "worktree", "add", "--detach", wt, "HEAD")
+    assert r.returncode == 0, r.stderr
+    os.makedirs(bd); os.makedirs(ev)
+    for t in glob.glob("/verif/build/kani-target*"):
+        sh("cp", "-r", t, bd)
+    env = dict(os.environ, VERIF_REPO=wt, VERIF_BUILD=bd, VERIF_EVIDENCE=ev, VERIF_KANI_J=str(max(2, 16 // W)))
     try:
-        for pr in props:
-            c = subprocess.run(["/verif/check", pr, "--no-cover"] + (["--no-kani"] if os.environ.get("NOKANI") else []), capture_output=True, text=True, cwd="/verif")
-            first = [l for l in c.stdout.split("\n") if l.startswith("  obligation:") or l.startswith("UNDECIDED")]
-            rows.append((d, pr, "exit %d" % c.returncode, (first[0] if first else "")[:160]))
+        while True:
+            try:
+                d = q.get_nowait()
+            except queue.Empty:
+                return
+            prop = re.search(r"(C\d\d)", d).group(1)
+            props = [prop]
+            meta = os.path.join(d, "meta.json")
+            if os.path.exists(meta):
+                props = json.load(open(meta)).get("check_with", props)
+            r = sh("git", "-C", wt, "apply", os.path.join(d, "patch.diff"))
+            if r.returncode != 0:
+                with lock:
+                    rows.append((d, prop, "patch does not apply", r.stderr.strip()[:100]))
+                continue
+            try:
+                for pr in props:
+                    c = sh(VERIF + "/check", pr, "--no-cover", *(["--no-kani"] if os.environ.get("NOKANI") else []), cwd=VERIF, env=env)
+                    first = [l.strip() for l in c.stdout.split("\n") if l.startswith("  obligation:") or l.startswith("UNDECIDED") or l.startswith("VIOLATION")]
+                    with lock:
+                        rows.append((d, pr, "exit %d" % c.returncode, " ;; ".join(first[:3])[:300]))
+                        print(" | ".join(rows[-1]), flush=True)
+            finally:
+                sh("git", "-C", wt, "checkout", "--", ".")
+                sh("git", "-C", wt, "clean", "-fdq")
     finally:
-        subprocess.run(["git", "-C", "/repo", "checkout", "--", "."])
-for r in rows:
+        sh("git", "-C", "/repo", "worktree", "remove", "--force", wt)
+        shutil.rmtree(wt, ignore_errors=True); shutil.rmtree(bd, ignore_errors=True); shutil.rmtree(ev, ignore_errors=True)
+
+ts = [threading.Thread(target=worker, args=(i,)) for i in range(W)]
+for t in ts: t.start()
+for t in ts: t.join()
+print("==== sorted")
+for r in sorted(rows):
     print(" | ".join(r))
